@@ -82,13 +82,22 @@ func poolSeedArgs(seed int64, cls string, v int) (string, string) {
 	return "", ""
 }
 
-func runAbstractStep(st pstep, seed int64) {
+func runAbstractStep(st pstep, seed int64) { runAbstractStepG(st, seed, -1) }
+
+func tag(id string, g int) Event {
+	if g < 0 {
+		return Event{"argid": id}
+	}
+	return Event{"argid": id, "g": g, "conc": true}
+}
+
+func runAbstractStepG(st pstep, seed int64, g int) {
 	switch st.Op {
 	case "ent":
 		id := fmt.Sprintf("ent/%s/%d/%d", st.Cls, st.Lang, st.Var)
 		ent := poolEntropy(seed, st.Cls, st.Var)
 		keep := append([]byte(nil), ent...)
-		recByEntropy(ent, st.Lang, Event{"argid": id})
+		recByEntropy(ent, st.Lang, tag(id, g))
 		emit(Event{"op": "Buf", "before": ints(keep), "after": ints(ent)})
 	case "chk":
 		src := st.Lang
@@ -96,17 +105,17 @@ func runAbstractStep(st pstep, seed int64) {
 			src = *st.Src
 		}
 		id := fmt.Sprintf("chk/%s/%d/%d/%d", st.Cls, src, st.Lang, st.Var)
-		recCheck(poolSentence(seed, st.Cls, src, st.Var), st.Lang, Event{"argid": id})
+		recCheck(poolSentence(seed, st.Cls, src, st.Var), st.Lang, tag(id, g))
 	case "seed":
 		id := fmt.Sprintf("seed/%s/%d", st.Cls, st.Var)
 		m, p := poolSeedArgs(seed, st.Cls, st.Var)
-		recToSeed(m, p, st.Var%2 == 0, Event{"argid": id})
+		recToSeed(m, p, st.Var%2 == 0 && g < 0, tag(id, g))
 	case "str":
-		recString(st.N, Event{"argid": fmt.Sprintf("str/%d", st.N)})
+		recString(st.N, tag(fmt.Sprintf("str/%d", st.N), g))
 	default:
 		fatal("prog: unknown step", st.Op)
 	}
-	if observeMaps {
+	if observeMaps && g < 0 {
 		mapLens()
 	}
 }
